@@ -23,6 +23,8 @@ type astScanOpts struct {
 }
 
 type scanOpts struct {
+	// report reads of package variables that API functions store into (C15)
+	SharedReads bool `json:"shared_reads"`
 	// entry points from which the scanned cone is extended by reachability
 	ReachableFrom []string `json:"reachable_from"`
 	// functions allowed to call random / clock sources
@@ -862,5 +864,53 @@ func (x *Exec) reachableFrom(entries []string) []*ssa.Function {
 		out = append(out, f)
 	}
 	sort.Slice(out, func(i, j int) bool { return funcKey(out[i]) < funcKey(out[j]) })
+	return out
+}
+
+// scanSharedFlagReads (C15): a package-level variable that some API function other than
+// package initialisation and Configure stores into is shared mutable state; every read of
+// it in the rendering cone races with those stores (and makes a result depend on earlier
+// calls). One obligation per reading function and variable.
+func (x *Exec) scanSharedFlagReads(funcs []*ssa.Function) []*ObResult {
+	written := map[*ssa.Global]string{}
+	for _, f := range x.ld.allFuncs {
+		if f.Name() == "init" || strings.HasPrefix(f.Name(), "init$") || funcKey(f) == "textwire.Configure" {
+			continue
+		}
+		for _, b := range f.Blocks {
+			for _, in := range b.Instrs {
+				if st, ok := in.(*ssa.Store); ok {
+					if g, ok := st.Addr.(*ssa.Global); ok {
+						written[g] = funcKey(f)
+					}
+				}
+			}
+		}
+	}
+	var out []*ObResult
+	for _, f := range funcs {
+		seen := map[*ssa.Global]bool{}
+		for _, b := range f.Blocks {
+			for _, in := range b.Instrs {
+				u, ok := in.(*ssa.UnOp)
+				if !ok || u.Op != token.MUL {
+					continue
+				}
+				g, ok := u.X.(*ssa.Global)
+				if !ok || seen[g] {
+					continue
+				}
+				w, isW := written[g]
+				if !isW {
+					continue
+				}
+				seen[g] = true
+				key := funcKey(f)
+				out = append(out, &ObResult{Name: fmt.Sprintf("%s/scan:no-read-of-state-the-api-writes@%s", key, g.Name()), Func: key, Kind: "scan",
+					Status: "refuted", Solver: "ssa-scan", Instances: 1,
+					Raw: fmt.Sprintf("%s reads package variable %s at %s; %s stores into it", key, g.Name(), x.ld.fset.Position(in.Pos()), w)})
+			}
+		}
+	}
 	return out
 }
